@@ -288,6 +288,20 @@ def _ser_cases(ctx: Ctx, r, n: int, *, ns=False):
         if o.ns:
             g = gen.G(r)
             bindings = [(r.choice(["", "ex", "a", "ü", "p1"]), g.iri()) for _ in range(r.randint(0, 4))]
+        if entry in ("flat", "grouped") and not bindings and r.random() < 0.15:
+            # options omitted: guessed from the first statement / sink (flat logical type, default preset)
+            o_none = Opts(lt=1 if cls == "T" else 2, gen=True, star=True, delim=True)
+            stmts = gen_fitting(r, cls, o_none, r.randint(1, 10))
+            if stmts:
+                if entry == "flat":
+                    resp, b = impl.run_ser_flat(None, stmts)
+                    req = f"ser {cls} flat - {stmts_text(stmts)}"
+                else:
+                    sinks = [mk_sink(stmts)]
+                    resp, b = impl.run_ser_grouped(None, sinks)
+                    req = f"ser {cls} grouped - " + "+".join(sink_arg(s) for s in sinks)
+                cases.append(dict(cls=cls, entry=entry + "-noopts", o=o_none, stmts=stmts, bindings=[], req=req, resp=resp, bytes=b))
+                continue
         if entry == "frames":
             is_sink = r.random() < 0.5 or bool(bindings)
             data = mk_sink(stmts, bindings) if is_sink else stmts
@@ -319,7 +333,7 @@ def _ser_cases(ctx: Ctx, r, n: int, *, ns=False):
 
 def _effective_class(c) -> str:
     """Stream class the entry point ends up using (guess_stream for flat/grouped)."""
-    if c["entry"] in ("flat", "grouped", "grouped-empty-first"):
+    if c["entry"] in ("flat", "grouped", "grouped-empty-first", "flat-noopts", "grouped-noopts"):
         first_is_triple = bool(c["stmts"]) and len(c["stmts"][0]) == 3 and c["entry"] != "grouped-empty-first"
         if (c["o"].lt % 10) != 3 and not first_is_triple:
             return "Q"
@@ -814,6 +828,31 @@ def _c06_rdflib(ctx: Ctx, r) -> None:
             want_cmp = want
         if got != want_cmp:
             ctx.fail(f"rdflib {how}: written bytes parse back to something else", dict(opts=o.describe(), cls=cls, got=got[:10], want=want_cmp[:10]))
+    # the plugin with every default: Graph.serialize(format="jelly") / Dataset.serialize(format="jelly")
+    for _ in range(ctx.n(40, 400)):
+        data_cls = r.choice("TQ")
+        o = Opts(fs=250, lt=1 if data_cls == "T" else 2, gen=False, star=False, delim=True, pn=4000, pp=150, pd=32)
+        stmts = _rdf11_statements(r, data_cls, o, r.randint(1, 9))
+        if not stmts:
+            continue
+        store = _to_store(stmts, data_cls)
+        is_graph, ns, tok = rimpl.observe(data_cls, store)
+        try:
+            b = rimpl.plugin_serialize(store)
+            line = f"ok {b.hex()} flow=0 end"
+        except Exception as e:  # noqa: BLE001
+            b, line = None, "!" + type(e).__name__
+        reqs.append(f"serr {data_cls} {o.token()} {int(is_graph)} {rimpl.ns_token(ns)} {tok}")
+        resp.append(line)
+        ctx.case(("rdflib-plugin-defaults", tuple(sorted(rimpl.store_quads(store)))), True)
+        ctx.dist["rdflib:plugin-defaults"] += 1
+        if b is None:
+            ctx.fail("Graph.serialize(format='jelly') with default options raised " + line, dict(statements=rimpl.store_quads(store)[:5]))
+            continue
+        back, err = rimpl.run_par_graph("seek", b)
+        want = sorted(set(_norm_text(t) for t in rimpl.store_quads(store)))
+        if err or sorted(set(_norm_text(t) for t in rimpl.store_quads(back))) != want:
+            ctx.fail("Graph.serialize(format='jelly') with default options does not round-trip", dict(want=want[:6], err=err))
     # the plugin's writer choice (write_delimited / write_single per frame) against the model
     model = __import__("common").run_driver(reqs)
     for q, a, m in zip(reqs, resp, model):
